@@ -190,6 +190,24 @@ lower = _text_fn(str.lower, False)
 trim = _text_fn(lambda s: s.strip(" "), True)
 
 
+def trim_fn(side, chars=" "):
+    """TRIM / LTRIM / RTRIM(<expr> [, <characters>]): the argument is converted to text first; every leading and/or
+    trailing character that occurs in `characters` (default: the blank) is removed"""
+
+    def f(s):
+        if side == "l":
+            return s.lstrip(chars)
+        if side == "r":
+            return s.rstrip(chars)
+        return s.strip(chars)
+
+    return _text_fn(f, True)
+
+
+ltrim = trim_fn("l")
+rtrim = trim_fn("r")
+
+
 def array_size(v):
     if isinstance(v, list):
         return len(v)
